@@ -399,7 +399,9 @@ pub fn exec_op<F: PrimeField, C: ConstraintSystem<F> + Hooks<F>>(
         Op::Alloc(Some(v)) => val_ok(sh, v),
         Op::AllocMul(Some((l, r))) => val_ok(sh, l) && val_ok(sh, r),
         Op::Mul(l, r) => refs_ok(sh, l) && refs_ok(sh, r),
-        Op::Constrain(e) => refs_ok(sh, e),
+        // a constraint may name, through a hand-built handle, a commitment or gate that only
+        // comes into existence later (forward reference): only table references are checked
+        Op::Constrain(e) => e.max_table().map(|i| i < sh.table.len() && i < sh.model.table.len()).unwrap_or(true),
         Op::OverwriteGate { gate, l, r, o } => *gate < sh.model.gates && val_ok(sh, l) && val_ok(sh, r) && val_ok(sh, o),
         _ => true,
     };
